@@ -384,12 +384,11 @@ fn report_diffs(run: &Run, arms: &[Arm], diffs: Vec<Diff>) {
     for ((i, engine), ds) in groups {
         let mut singles: Vec<&Diff> = ds.iter().filter(|d| single.contains(&d.arm.as_str())).collect();
         singles.sort_by(|a, b| a.arm.cmp(&b.arm));
-        if !singles.is_empty() {
-            let names: Vec<&str> = singles.iter().map(|d| d.arm.as_str()).collect();
+        for d in &singles {
             run.violation(
-                &format!("design#{i}:{engine}:toggles={}", names.join("+")),
-                &format!("corpus design #{i}, engine {engine}: trace changes when switching {} (single-pass arms) vs all passes on", names.join(", ")),
-                singles[0].detail.clone(),
+                &format!("design#{i}:{engine}:toggle={}", d.arm),
+                &format!("corpus design #{i}, engine {engine}: trace changes when switching {} (single-pass arm) vs all passes on", d.arm),
+                d.detail.clone(),
             );
         }
         let explained: Vec<(String, String)> = singles
